@@ -428,12 +428,8 @@ def r4_5(ctx):
     # parser sets silent from `.silent`
     ps = p.func("parse.IMAPClientCommand._p_store")
     ctx.analysed(ps)
-    ok = False
-    for s in body_walk(ps.node):
-        if isinstance(s, ast.If):
-            t_, body_, orelse_ = _canon_if(s)
-            if ".silent" in norm(t_) and any(norm(b) == "self.silent = True" for b in body_) and any(norm(b) == "self.silent = False" for b in orelse_):
-                ok = True
+    from .common import pm_of as _pm_of
+    ok = _pm_of(p, ps).has("if self._p_simple_string('.silent', silent=True):\n    self.silent = True\nelse:\n    self.silent = False") or _pm_of(p, ps).has("self.silent = bool(self._p_simple_string('.silent', silent=True))") or _pm_of(p, ps).has("self.silent = self._p_simple_string('.silent', silent=True) is not None")
     if ok:
         ctx.ok("R4.5", where(ps), "parser: silent = True iff `.SILENT` suffix present")
     else:
@@ -620,8 +616,8 @@ def r4_10(ctx):
         ("notifies_for = no_longer_unseen_msgs | no_longer_recent_msgs", "every changed message is announced"),
         ("for msg_key in no_longer_recent_msgs:\n    self.sequences['Recent'].discard(msg_key)\n    seqs['Recent'].discard(msg_key)", "\\Recent cleared in memory and in the file's sequences alike"),
         ("for msg_key in no_longer_unseen_msgs:\n    self.sequences['unseen'].discard(msg_key)\n    seqs['unseen'].discard(msg_key)\n    if msg_key not in self.sequences['Seen']:\n        self.sequences['Seen'].add(msg_key)\n        seqs['Seen'].add(msg_key)", "unseen dropped and Seen added together, in memory and file"),
-        ("for sequence in self.sequences.keys():\n    if msg_key in self.sequences[sequence]:\n        flags.append(seq_to_flag(sequence))", "the announced flag list holds exactly the sequences the message is in"),
-        ("msg_seq_number = self._msg_key_to_idx[msg_key] + 1", "announced under the message's sequence number"),
+        ("flags = []\nfor sequence in self.sequences.keys():\n    if msg_key in self.sequences[sequence]:\n        flags.append(seq_to_flag(sequence))", "the announced flag list holds exactly the sequences the message is in"),
+        ("flags_str = ' '.join(flags)\nmsg_seq_number = self._msg_key_to_idx[msg_key] + 1\nnotifies.append(f'* {msg_seq_number} FETCH (FLAGS ({flags_str}))\\r\\n')", "announced under the message's sequence number, with that flag list"),
         ("await self._dispatch_or_pend_notifications(notifies)", "announced to every session through the ordered channel"),
     ]
     for pat, what in checks:
